@@ -10,7 +10,7 @@ Section DocInd.
   Variable P : doc -> Prop.
   Hypothesis Hnull : P DNull.
   Hypothesis Hbool : forall b, P (DBool b).
-  Hypothesis Hint : forall z, P (DInt z).
+  Hypothesis Hint : forall ty z, P (DInt ty z).
   Hypothesis Hfloat : forall n s, P (DFloat n s).
   Hypothesis Hstr : forall s, P (DStr s).
   Hypothesis Harr : forall l tc, Forall P l -> P (DArr l tc).
@@ -20,7 +20,7 @@ Section DocInd.
     match d with
     | DNull => Hnull
     | DBool b => Hbool b
-    | DInt z => Hint z
+    | DInt ty z => Hint ty z
     | DFloat n s => Hfloat n s
     | DStr s => Hstr s
     | DArr l tc =>
@@ -144,7 +144,7 @@ End Fuel.
 (* the argument the literal rules hand to json!( ): an interpolated literal *)
 Definition arg_of (d : doc) : list tt :=
   match d with
-  | DInt z => [TNt (if (z <? 0)%Z then ENeg (LInt (Z.abs_N z)) else ELit (LInt (Z.abs_N z)))]
+  | DInt ty z => [TNt (if (z <? 0)%Z then ENeg (LInt (Z.abs_N z) ty) else ELit (LInt (Z.abs_N z) ty))]
   | DFloat neg s => [TNt (if neg then ENeg (LFloat s) else ELit (LFloat s))]
   | DStr s => [TNt (ELit (LStr s))]
   | _ => tokens d
@@ -164,7 +164,7 @@ Ltac arr_rules :=
 Lemma elem_step d es tail :
   first_match rules (arr_inv (emit_trail es) (tokens d ++ tail)) = Some (arr_push es (arg_of d) tail).
 Proof.
-  destruct d as [|[|]|z|[|] s|s|l tc|l tc]; cbn [tokens arg_of]; try destruct (z <? 0)%Z;
+  destruct d as [|[|]|ty z|[|] s|s|l tc|l tc]; cbn [tokens arg_of]; try destruct (z <? 0)%Z;
     arr_rules; reflexivity.
 Qed.
 
@@ -228,7 +228,7 @@ Lemma value_step d es t ks tail cp :
   first_match rules (obj_inv (emit_trail es) (t :: ks) (TPunct PColon :: tokens d ++ tail) cp)
   = Some (obj_push es (t :: ks) (arg_of d) tail).
 Proof.
-  destruct d as [|[|]|z|[|] s|s|l tc|l tc]; cbn [tokens arg_of]; try destruct (z <? 0)%Z;
+  destruct d as [|[|]|ty z|[|] s|s|l tc|l tc]; cbn [tokens arg_of]; try destruct (z <? 0)%Z;
     obj_rules; reflexivity.
 Qed.
 
@@ -269,7 +269,7 @@ Qed.
 
 Lemma tokens_cons d : exists t ts, tokens d = t :: ts.
 Proof.
-  destruct d as [|b|z|[|] s|s|l tc|l tc]; cbn [tokens]; try destruct (z <? 0)%Z; eauto.
+  destruct d as [|b|ty z|[|] s|s|l tc|l tc]; cbn [tokens]; try destruct (z <? 0)%Z; eauto.
 Qed.
 
 Lemma dom_arr fmt env l tc : dom fmt env (DArr l tc) <-> Forall (dom fmt env) l.
@@ -417,31 +417,34 @@ Section Main.
   Variable env : list N -> option (list N).
   Notation rn := (mrun fmt env).
 
-  Lemma in_i32_dom z : (-2147483648 <= z <= 2147483647)%Z -> in_i32 z = true.
-  Proof. unfold in_i32. intros H. apply andb_true_iff. split; apply Z.leb_le; lia. Qed.
+  Lemma in_ity_dom t z : (ity_min t <= z <= ity_max t)%Z -> in_ity t z = true.
+  Proof. unfold in_ity. intros H. apply andb_true_iff. split; apply Z.leb_le; lia. Qed.
 
-  Lemma conv_int z : (-2147483648 <= z <= 2147483647)%Z ->
-    conv_lit fmt (z <? 0)%Z (LInt (Z.abs_N z)) = Some (VNum (dec_of_Z z)).
+  Lemma conv_int ty z : (ity_min (ity_of ty) <= z <= ity_max (ity_of ty))%Z ->
+    conv_lit fmt (z <? 0)%Z (LInt (Z.abs_N z) ty) = Some (VNum (dec_of_Z z)).
   Proof.
     intros H. unfold conv_lit.
     assert (E : (if (z <? 0)%Z then (- Z.of_N (Z.abs_N z))%Z else Z.of_N (Z.abs_N z)) = z).
     { rewrite N2Z.inj_abs_N. destruct (z <? 0)%Z eqn:Ez; [apply Z.ltb_lt in Ez|apply Z.ltb_ge in Ez]; lia. }
-    rewrite E, (in_i32_dom _ H). reflexivity.
+    assert (S : (z <? 0)%Z && negb (ity_signed (ity_of ty)) = false).
+    { destruct (z <? 0)%Z eqn:Ez; [|reflexivity]. apply Z.ltb_lt in Ez.
+      destruct (ity_of ty); cbn in *; try reflexivity; lia. }
+    rewrite E, S, (in_ity_dom _ _ H). reflexivity.
   Qed.
 
-  Lemma leaf_int z : (-2147483648 <= z <= 2147483647)%Z ->
-    rn 1 (tokens (DInt z)) = Some (RVal (value_of (DInt z))) /\
-    rn 1 (arg_of (DInt z)) = Some (RVal (value_of (DInt z))).
+  Lemma leaf_int ty z : (ity_min (ity_of ty) <= z <= ity_max (ity_of ty))%Z ->
+    rn 1 (tokens (DInt ty z)) = Some (RVal (value_of (DInt ty z))) /\
+    rn 1 (arg_of (DInt ty z)) = Some (RVal (value_of (DInt ty z))).
   Proof.
-    intros H. pose proof (conv_int z H) as C. cbn [tokens arg_of value_of].
+    intros H. pose proof (conv_int ty z H) as C. cbn [tokens arg_of value_of].
     destruct (z <? 0)%Z; split; rewrite run_S.
-    - change (first_match rules [TPunct PMinus; TLit (LInt (Z.abs_N z))]) with (Some (OTryFrom (ENeg (LInt (Z.abs_N z))))).
+    - change (first_match rules [TPunct PMinus; TLit (LInt (Z.abs_N z) ty)]) with (Some (OTryFrom (ENeg (LInt (Z.abs_N z) ty)))).
       cbn [try_from_expr]. rewrite C. reflexivity.
-    - change (first_match rules [TNt (ENeg (LInt (Z.abs_N z)))]) with (Some (OTryFrom (ENeg (LInt (Z.abs_N z))))).
+    - change (first_match rules [TNt (ENeg (LInt (Z.abs_N z) ty))]) with (Some (OTryFrom (ENeg (LInt (Z.abs_N z) ty)))).
       cbn [try_from_expr]. rewrite C. reflexivity.
-    - change (first_match rules [TLit (LInt (Z.abs_N z))]) with (Some (OTryFrom (ELit (LInt (Z.abs_N z))))).
+    - change (first_match rules [TLit (LInt (Z.abs_N z) ty)]) with (Some (OTryFrom (ELit (LInt (Z.abs_N z) ty)))).
       cbn [try_from_expr]. rewrite C. reflexivity.
-    - change (first_match rules [TNt (ELit (LInt (Z.abs_N z)))]) with (Some (OTryFrom (ELit (LInt (Z.abs_N z))))).
+    - change (first_match rules [TNt (ELit (LInt (Z.abs_N z) ty))]) with (Some (OTryFrom (ELit (LInt (Z.abs_N z) ty)))).
       cbn [try_from_expr]. rewrite C. reflexivity.
   Qed.
 
@@ -476,10 +479,10 @@ Section Main.
 
   Theorem run_tokens : forall d, dom fmt env d -> Good d.
   Proof.
-    induction d as [|b|z|neg s|s|l tc IH|l tc IH] using doc_ind'; intros Hd.
+    induction d as [|b|ty z|neg s|s|l tc IH|l tc IH] using doc_ind'; intros Hd.
     - split; exists 1%nat; reflexivity.
     - split; exists 1%nat; destruct b; reflexivity.
-    - destruct (leaf_int z Hd). split; exists 1%nat; assumption.
+    - destruct (leaf_int ty z Hd). split; exists 1%nat; assumption.
     - destruct Hd as [_ Hs]. destruct (leaf_float neg s Hs). split; exists 1%nat; assumption.
     - split; exists 1%nat; reflexivity.
     - assert (G : exists f, rn f (tokens (DArr l tc)) = Some (RVal (value_of (DArr l tc)))).
@@ -621,7 +624,7 @@ Qed.
 
 Theorem text_is_ser_min : forall d, text d = ser_min (value_of d).
 Proof.
-  induction d as [|b|z|neg s|s|l tc IH|l tc IH] using doc_ind'; cbn [text value_of ser_min]; try reflexivity.
+  induction d as [|b|ty z|neg s|s|l tc IH|l tc IH] using doc_ind'; cbn [text value_of ser_min]; try reflexivity.
   - rewrite map_map. do 3 f_equal. induction IH as [|x r Hx _ IHr]; [reflexivity|].
     cbn [map]. rewrite Hx, IHr. reflexivity.
   - rewrite map_map. do 3 f_equal. induction IH as [|x r Hx _ IHr]; [reflexivity|].
@@ -630,7 +633,7 @@ Qed.
 
 Theorem dom_wfv fmt env : forall d, dom fmt env d -> wfv (value_of d).
 Proof.
-  induction d as [|b|z|neg s|s|l tc IH|l tc IH] using doc_ind'; intros Hd; cbn [value_of].
+  induction d as [|b|ty z|neg s|s|l tc IH|l tc IH] using doc_ind'; intros Hd; cbn [value_of].
   - exact I.
   - exact I.
   - cbn [wfv]. apply dec_of_Z_jnum.
